@@ -20,7 +20,68 @@ pub fn run(ctx: &mut Ctx) {
     }
 }
 
+/// Rare and expensive: an in-place update that swaps two constant regions of 9..17 MiB, i.e.
+/// chunks far beyond every internal buffer (1 MiB refill, 2 MiB file buffer, anything a
+/// "bound the memory" change might pick) moving in a cycle.
+fn huge_chunk_swap(ctx: &mut Ctx) {
+    let a_len = (9 << 20) + gen::draw(8 << 20) as usize;
+    let b_len = (9 << 20) + gen::draw(8 << 20) as usize;
+    let mut source = vec![0u8; a_len];
+    source.extend(std::iter::repeat(0xffu8).take(b_len));
+    let mut prior = vec![0xffu8; b_len];
+    prior.extend(std::iter::repeat(0u8).take(a_len));
+    scen::put_file("src.bin", &source);
+    scen::set_stdin(None);
+    scen::set_schedule(100, true);
+    let r = scen::run(&crate::cli::args(&["bita", "compress", "-i", "src.bin", "--compression", "none", "--max-chunk-size", "32MiB", "--buffered-chunks", "2", "a.cba"]));
+    if !r.outcome.is_success() {
+        ctx.fail(&format!("compress-outcome:{}", r.outcome.class()), format!("compress of two constant regions ended with {}", r.outcome.short()));
+        return;
+    }
+    scen::put_file("out.bin", &prior);
+    scen::quiet(|| {
+        let _ = std::fs::remove_file("src.bin");
+    });
+    scen::draw_schedule();
+    let before = scen::listing();
+    sys::with(|s| s.log.clear());
+    let r = scen::run(&crate::cli::args(&["bita", "clone", "--seed-output", "--buffered-chunks", "2", "a.cba", "out.bin"]));
+    let after = scen::listing();
+    let desc = json!({"huge_chunk_swap": {"zeros": a_len, "ones": b_len}, "outcome": r.outcome.short()});
+    if ctx.want_sample {
+        ctx.verdict.sample = Some(desc.clone());
+    }
+    if !r.outcome.is_success() || scen::get_file("out.bin").as_deref() != Some(&source[..]) {
+        ctx.fail("huge-swap-clone", format!("in-place swap of two huge chunks: {}; output correct: {}; {}", r.outcome.short(), scen::get_file("out.bin").as_deref() == Some(&source[..]), desc));
+        return;
+    }
+    let events: Vec<(sys::Op, String, i64, i64)> = sys::with(|s| s.log.iter().filter(|e| matches!(e.op, sys::Op::Open | sys::Op::Unlink | sys::Op::Rename | sys::Op::Mkdir)).map(|e| (e.op, s.path_name(e.path).to_string(), e.a, e.ret)).collect());
+    for (op, path, a, ret) in &events {
+        match op {
+            sys::Op::Open if a & WRITE_FLAGS != 0 && path != "out.bin" => {
+                ctx.fail("opened-for-writing", format!("clone opened {:?} with flags {:#o} (result {}): only the output may be opened for writing, created or truncated; {}", path, a, ret, desc));
+                return;
+            }
+            sys::Op::Unlink | sys::Op::Rename | sys::Op::Mkdir => {
+                ctx.fail("removed-or-renamed", format!("clone issued {:?} on {:?}; {}", op, path, desc));
+                return;
+            }
+            _ => {}
+        }
+    }
+    if before.keys().collect::<Vec<_>>() != after.keys().collect::<Vec<_>>() {
+        ctx.fail("sandbox-changed", format!("the set of files changed; {}", desc));
+        return;
+    }
+    simkit::count("probe:huge-chunk-swap");
+    ctx.verdict.nontrivial = true;
+    ctx.verdict.shape = (a_len as u64) << 8 ^ b_len as u64;
+}
+
 fn run_clone(ctx: &mut Ctx) {
+    if gen::chance(1, if ctx.tier == crate::harness::Tier::Thorough { 150 } else { 400 }) {
+        return huge_chunk_swap(ctx);
+    }
     let Some(mut f) = clonefam::generate(ctx, Which::C16) else { return };
     f.level2 = true;
     // a quarter of the clones is made to fail (damaged chunk data, truncated archive, existing
